@@ -225,8 +225,10 @@ class NarwhalsMaterializer(FormulaMaterializer):
                 # An empty frame of the same kind as the input, with one row
                 # per retained row (as in the non-empty case: a narwhals frame
                 # for narwhals input, the native frame otherwise).
-                empty = self.__narwhals_data.drop(self.__narwhals_data.columns).head(
-                    values.shape[0]
+                retained = numpy.ones(self.nrows, dtype=bool)
+                retained[list(drop_rows)] = False
+                empty = self.__narwhals_data.filter(retained.tolist()).drop(
+                    self.__narwhals_data.columns
                 )
                 if nw.dependencies.is_narwhals_dataframe(self.data):
                     return empty
